@@ -26,7 +26,8 @@ RULE = ("Hypothesis-generated Intel-HEX images: 1..8 disjoint data areas of 1..3
         "one or several 64 KiB zones with gaps (including areas crossing a zone boundary), "
         "written with per-record lengths 1..255, areas in or out of address order, zone records "
         "re-emitted or not, optional start-address record, LF or CRLF; 1..4 images per one-time "
-        "signing run, two runs; non-trivial = image with >= 2 areas or written out of address "
+        "signing run, two runs; authorization messages of all images written to one output path; "
+        "non-trivial = image with >= 2 areas or written out of address "
         "order; distinct by case fingerprint")
 ASSUMPTIONS = [
     "expected hash = SHA-256 over the harness's own area list in address order; files are "
